@@ -253,3 +253,23 @@ package age
 //@   call rand.Read#1 requires len(arg0) == 32                                                                          [C06]
 //@   call newX25519IdentityFromScalar#1 requires bytes(arg0) == csprng(old($draws), 32)                                 [C06]
 //@   ensures#draws $draws == old($draws) + 1                                                                            [C06]
+
+//@ func ParseIdentities(f) (ids, err)
+//@   requires f != nil
+//@   loop 1 invariant scanner != nil && n == scanner.$ln && n >= 0
+//@   loop 1 invariant#count len(ids) == keycount(id(scanner), n)                                                  [C18]
+//@   loop 1 invariant#nonnil forall j in 0..len(ids) :: ids[j] != nil                                            [C18]
+//@   call ParseX25519Identity#0 requires arg0 == scanner.$cur && iskeyline(arg0)                                  [C18]
+//@   call fmt.Errorf#1 requires arg0 == "error at line %d: %v" && unboxint(arg1[0]) == n && n == scanner.$ln      [C18]
+//@   ensures#all err == nil ==> len(ids) == keycount(id(scanner), scanner.$ln) && len(ids) >= 1 && (forall j in 0..len(ids) :: ids[j] != nil)   [C18]
+//@   ensures#nil err != nil ==> ids == nil                                                                       [C14 C18]
+
+//@ func ParseRecipients(f) (recs, err)
+//@   requires f != nil
+//@   loop 1 invariant scanner != nil && n == scanner.$ln && n >= 0
+//@   loop 1 invariant#count len(recs) == keycount(id(scanner), n)                                                 [C18]
+//@   loop 1 invariant#nonnil forall j in 0..len(recs) :: recs[j] != nil                                          [C18]
+//@   call ParseX25519Recipient#0 requires arg0 == scanner.$cur && iskeyline(arg0)                                 [C18]
+//@   call fmt.Errorf#1 requires arg0 == "malformed recipient at line %d" && len(arg1) == 1 && unboxint(arg1[0]) == n && n == scanner.$ln   [C18]
+//@   ensures#all err == nil ==> len(recs) == keycount(id(scanner), scanner.$ln) && len(recs) >= 1 && (forall j in 0..len(recs) :: recs[j] != nil)   [C18]
+//@   ensures#nil err != nil ==> recs == nil                                                                      [C14 C18]
